@@ -12,6 +12,23 @@ import (
 
 type DeletionCause int
 
+const (
+	Explicit DeletionCause = iota
+	Replaced
+	Size
+	Expired
+)
+
+// Stats mirrors the accessor surface of otter.Stats (all zero: the model keeps no statistics).
+type Stats struct{}
+
+func (Stats) Hits() int64         { return 0 }
+func (Stats) Misses() int64       { return 0 }
+func (Stats) Ratio() float64      { return 0 }
+func (Stats) RejectedSets() int64 { return 0 }
+func (Stats) EvictedCount() int64 { return 0 }
+func (Stats) EvictedCost() int64  { return 0 }
+
 type Builder[K comparable, V any] struct {
 	cost     func(K, V) uint32
 	listener func(K, V, DeletionCause)
@@ -20,6 +37,8 @@ type Builder[K comparable, V any] struct {
 func NewBuilder[K comparable, V any](size int) (*Builder[K, V], error) { return &Builder[K, V]{}, nil }
 func (b *Builder[K, V]) WithVariableTTL() *Builder[K, V]               { return b }
 func (b *Builder[K, V]) Cost(f func(K, V) uint32) *Builder[K, V]       { b.cost = f; return b }
+func (b *Builder[K, V]) CollectStats() *Builder[K, V]                  { return b }
+func (b *Builder[K, V]) InitialCapacity(int) *Builder[K, V]            { return b }
 func (b *Builder[K, V]) DeletionListener(f func(K, V, DeletionCause)) *Builder[K, V] {
 	b.listener = f
 	return b
@@ -65,8 +84,55 @@ func (c CacheWithVariableTTL[K, V]) SetIfAbsent(k K, v V, ttl time.Duration) boo
 	c.c.m[k] = v
 	return true
 }
-func (c CacheWithVariableTTL[K, V]) Size() int { return len(c.c.m) }
-func (c CacheWithVariableTTL[K, V]) Close()    {}
+
+// The rest of otter's cache API, so that a change of the implementation to another otter call still builds and is explored.
+func (c CacheWithVariableTTL[K, V]) Has(k K) bool {
+	sched.Point("otter.Has")
+	_, ok := c.c.m[k]
+	return ok
+}
+func (c CacheWithVariableTTL[K, V]) Delete(k K) {
+	sched.Point("otter.Delete")
+	v, ok := c.c.m[k]
+	if !ok {
+		return
+	}
+	delete(c.c.m, k)
+	if c.c.listener != nil {
+		sched.Point("otter.listener(deleted)")
+		c.c.listener(k, v, Explicit)
+	}
+}
+func (c CacheWithVariableTTL[K, V]) DeleteByFunc(f func(K, V) bool) {
+	sched.Point("otter.DeleteByFunc")
+	var ks []K
+	for k, v := range c.c.m {
+		if f(k, v) {
+			ks = append(ks, k)
+		}
+	}
+	for _, k := range ks {
+		c.Delete(k)
+	}
+}
+func (c CacheWithVariableTTL[K, V]) Range(f func(K, V) bool) {
+	sched.Point("otter.Range")
+	for k, v := range c.c.m {
+		if !f(k, v) {
+			return
+		}
+	}
+}
+func (c CacheWithVariableTTL[K, V]) Clear() {
+	sched.Point("otter.Clear")
+	for k := range c.c.m {
+		delete(c.c.m, k)
+	}
+}
+func (c CacheWithVariableTTL[K, V]) Capacity() int { return 1 << 30 }
+func (c CacheWithVariableTTL[K, V]) Stats() Stats  { return Stats{} }
+func (c CacheWithVariableTTL[K, V]) Size() int     { return len(c.c.m) }
+func (c CacheWithVariableTTL[K, V]) Close()        {}
 
 // Evict removes k (one step) and calls the deletion listener (a later step), like expiry/eviction does.
 func Evict[K comparable, V any](cc CacheWithVariableTTL[K, V], k K) {
